@@ -63,8 +63,32 @@ def key_of(case, f):
     return f"C06/{case.cls_name}.{m}/{f['kind']}"
 
 
+class InstCase:
+    """The same zoo case with `random_state` handed over as a RandomState instance (a fresh one in the same state
+    for every constructed object)."""
+
+    def __init__(self, case, seed):
+        self._case, self._seed = case, seed
+
+    def __getattr__(self, name):
+        return getattr(self._case, name)
+
+    def build(self):
+        import numpy as np
+
+        obj = self._case.build()
+        if "random_state" in obj.get_params(deep=False):
+            inst = np.random.RandomState(self._seed % 1000 + 7)
+            inst.random_sample(3)
+            obj.set_params(random_state=inst)
+        return obj
+
+
 def run_case(ctx, case, seed, observed, mode=None, tie=False, reuse=None, inst=None):
-    if inst is not None:
+    if inst is not None and case.family not in ("pool", "pool_ma"):
+        ctx.count("random_state_instance_" + case.family)
+        case = InstCase(case, seed)
+    if inst is not None and case.family in ("pool", "pool_ma"):
         findings, info = oracles.repro_pool_instance(case, mode, seed, all_labeled=(inst == "all-labeled"))
         ctx.count("random_state_instance_" + inst + ("_skipped" if str(info.get("raised", "")).startswith("Skip") else ""))
     elif case.family in ("pool", "pool_ma"):
@@ -194,6 +218,7 @@ def correspond(ctx):
                         run_case(ctx, case, seed, observed, mode=mode, tie=True)
             else:
                 run_case(ctx, case, seed, observed)
+                run_case(ctx, case, seed, observed, inst="plain")
                 if case.family in ("classifier", "classifier_ma", "regressor"):
                     # re-used object vs fresh twin: plain data, no labels (every prediction a tie), far test points
                     for lvl in (0, 1, 2):
